@@ -513,6 +513,26 @@ func (l Letter) BuildTraces() ptrace.Traces {
 				sp.SetName("a")
 				sp.Events().AppendEmpty().SetName("e")
 			}
+		case "sub-events", "sub-links": // N events / links (32-bit ids) under three spans, each with its own attribute
+			ss := td.ResourceSpans().AppendEmpty().ScopeSpans().AppendEmpty()
+			for s := 0; s < 3; s++ {
+				sp := ss.Spans().AppendEmpty()
+				sp.SetName(fmt.Sprintf("a%d", s))
+				sp.SetSpanID([8]byte{1, byte(s)})
+				for i := s; i < l.Big.N; i += 3 {
+					if l.Big.Kind == "sub-events" {
+						ev := sp.Events().AppendEmpty()
+						ev.SetName("e")
+						ev.SetTimestamp(pcommon.Timestamp(i + 1))
+						ev.Attributes().PutInt("i", int64(i))
+					} else {
+						lk := sp.Links().AppendEmpty()
+						lk.SetTraceID([16]byte{9})
+						lk.SetSpanID([8]byte{byte(i), byte(i >> 8), byte(i >> 16), 1})
+						lk.Attributes().PutInt("i", int64(i))
+					}
+				}
+			}
 		case "resattrs": // N resources with one long string attribute each (a RESOURCE_ATTRS record of several MB)
 			for i := 0; i < l.Big.N; i++ {
 				rs := td.ResourceSpans().AppendEmpty()
@@ -1233,6 +1253,69 @@ func (l Letter) BuildMetrics() pmetric.Metrics {
 				sm := rm.ScopeMetrics().AppendEmpty()
 				sm.Scope().SetDroppedAttributesCount(uint32(i + 1))
 				sm.Metrics().AppendEmpty().SetName("m")
+			}
+		case "sub-gauge", "sub-sum", "sub-hist", "sub-ehist", "sub-summary":
+			// N data points (32-bit ids) of one kind under two metrics, each point with its own
+			// attribute; every 997th point carries an exemplar with an attribute of its own
+			sm := md.ResourceMetrics().AppendEmpty().ScopeMetrics().AppendEmpty()
+			for mi := 0; mi < 2; mi++ {
+				m := sm.Metrics().AppendEmpty()
+				m.SetName(fmt.Sprintf("m%d", mi))
+				for i := mi; i < l.Big.N; i += 2 {
+					switch l.Big.Kind {
+					case "sub-gauge", "sub-sum":
+						var dp pmetric.NumberDataPoint
+						if l.Big.Kind == "sub-gauge" {
+							if m.Type() != pmetric.MetricTypeGauge {
+								m.SetEmptyGauge()
+							}
+							dp = m.Gauge().DataPoints().AppendEmpty()
+						} else {
+							if m.Type() != pmetric.MetricTypeSum {
+								m.SetEmptySum()
+							}
+							dp = m.Sum().DataPoints().AppendEmpty()
+						}
+						dp.SetIntValue(int64(i))
+						dp.Attributes().PutInt("i", int64(i))
+						if i%997 == 0 {
+							e := dp.Exemplars().AppendEmpty()
+							e.SetIntValue(int64(i))
+							e.FilteredAttributes().PutInt("e", int64(i))
+						}
+					case "sub-hist":
+						if m.Type() != pmetric.MetricTypeHistogram {
+							m.SetEmptyHistogram()
+						}
+						dp := m.Histogram().DataPoints().AppendEmpty()
+						dp.SetCount(uint64(i))
+						dp.Attributes().PutInt("i", int64(i))
+						if i%997 == 0 {
+							e := dp.Exemplars().AppendEmpty()
+							e.SetIntValue(int64(i))
+							e.FilteredAttributes().PutInt("e", int64(i))
+						}
+					case "sub-ehist":
+						if m.Type() != pmetric.MetricTypeExponentialHistogram {
+							m.SetEmptyExponentialHistogram()
+						}
+						dp := m.ExponentialHistogram().DataPoints().AppendEmpty()
+						dp.SetCount(uint64(i))
+						dp.Attributes().PutInt("i", int64(i))
+						if i%997 == 0 {
+							e := dp.Exemplars().AppendEmpty()
+							e.SetIntValue(int64(i))
+							e.FilteredAttributes().PutInt("e", int64(i))
+						}
+					case "sub-summary":
+						if m.Type() != pmetric.MetricTypeSummary {
+							m.SetEmptySummary()
+						}
+						dp := m.Summary().DataPoints().AppendEmpty()
+						dp.SetCount(uint64(i))
+						dp.Attributes().PutInt("i", int64(i))
+					}
+				}
 			}
 		case "resattrs": // string and int: a third schema for RESOURCE_ATTRS
 			for i := 0; i < l.Big.N; i++ {
